@@ -17,7 +17,7 @@ import RedisVerif.Model.Resp
       `*2\r\n$3\r\nGET\r\n` / `*3\r\n$3\r\nSET\r\n` they compare against are 13 bytes long) — it is the
       parameter `headerLen` so that the "obvious fix" 13 is a statement about the same model,
     * the panic of `check_acl_permission` on a command name without a non-white-space character
-      (`nameGuard = false`: the code as it is; `true`: after the fix),
+      (`nameGuard = false`: the pinned code; `true`: after fix 5f3bab5, the code as it is),
     * the `usize` arithmetic of the recognisers: `checked_add` + decline on overflow (after the fix
       commit; `checked = true`) or wrapping as in a release build (`checked = false`, the pinned
       code), slices that panic.
